@@ -36,3 +36,70 @@ Lemma sym_mult_is_source_call S B : s_mult S B = if sn S =? dnl B then run_symm 
 Proof. reflexivity. Qed.
 Lemma sym_mult_sym_is_source_call S T : s_mult_sym S T = if sn S =? sn T then run_symm (Sym_mult_sym_call (sn S) (sn S) (sn T) (sn T)) (sel_ss S T) else Throw.
 Proof. reflexivity. Qed.
+
+(* ---- level 1 / packed level 2: daxpy dcopy dscal ddot dnrm2 DGER DSPMV ---- *)
+Local Open Scope Z_scope.
+Definition run_axpy (c : axpy_call) (sel : bufid -> list Z) : option (list Z) := axpy (a_n c) (a_alpha c) (sel (a_x c)) (sel (a_y c)).
+Definition run_dot (c : dot_call) (sel : bufid -> list Z) : option Z := dotp (d_n c) (sel (d_x c)) (sel (d_y c)).
+Definition run_scal (c : scal_call) (sel : bufid -> list Z) (x : Z) : option (list Z) := map_buf (s1_n c) (sel (s1_x c)) (fun e => x * e).
+(* dcopy from a strided slice into the fresh contiguous result / from a contiguous argument into a strided slice of the receiver *)
+Definition run_gather (c : copy_call) (sel : bufid -> list Z) : option (list Z) :=
+  match k_dst c with Res => if ((k_doff c =? 0) && (k_dinc c =? 1))%nat then gather (k_n c) (k_soff c) (k_sinc c) (sel (k_src c)) else None | _ => None end.
+Definition run_scatter (c : copy_call) (sel : bufid -> list Z) : option (list Z) :=
+  match k_dst c with This => if ((k_soff c =? 0) && (k_sinc c =? 1))%nat then scatter (k_n c) (k_doff c) (k_dinc c) (sel (k_src c)) (sel This) else None | _ => None end.
+Definition run_ger (c : ger_call) (sel : bufid -> list Z) : option (list Z) :=
+  if (g_lda c =? g_m c)%nat then ger (g_m c) (g_n c) (sel (g_x c)) (sel (g_y c)) else None.
+Definition run_spmv (c : spmv_call) (sel : bufid -> list Z) : option (list Z) := spmv (p_n c) (sel (p_ap c)) (sel (p_x c)).
+
+(* a deep copy holds the same values as the receiver *)
+Definition sel_vv (u v : list Z) (b : bufid) : list Z := match b with This | DeepCopyOfThis => u | Arg => v | _ => [] end.
+Definition sel_mm1 (A B : dense) (b : bufid) : list Z := match b with This | DeepCopyOfThis => dd A | Arg => dd B | _ => [] end.
+Definition sel_mv (A : dense) (v : list Z) (b : bufid) : list Z := match b with This => dd A | Arg => v | _ => [] end.
+Definition sel_ss1 (S T : sym) (b : bufid) : list Z := match b with This => sd S | Arg => sd T | _ => [] end.
+Definition sel_sv (S : sym) (v : list Z) (b : bufid) : list Z := match b with This => sd S | Arg => v | _ => [] end.
+Local Notation ln := (@length Z).
+
+Lemma v_add_is_source_call u v : v_add u v = if (ln u =? ln v)%nat then lift (run_axpy (Vector_plus_call (ln u) 1 (ln v) 1 (ln v)) (sel_vv u v)) id else Throw.
+Proof. reflexivity. Qed.
+Lemma v_sub_is_source_call u v : v_sub u v = if (ln u =? ln v)%nat then lift (run_axpy (Vector_minus_call (ln u) 1 (ln v) 1 (ln v)) (sel_vv u v)) id else Throw.
+Proof. reflexivity. Qed.
+Lemma v_iadd_is_source_call u v : v_add u v = if (ln u =? ln v)%nat then lift (run_axpy (Vector_iadd_call (ln u) 1 (ln v) 1 (ln v)) (sel_vv u v)) id else Throw.
+Proof. reflexivity. Qed.
+Lemma v_isub_is_source_call u v : v_sub u v = if (ln u =? ln v)%nat then lift (run_axpy (Vector_isub_call (ln u) 1 (ln v) 1 (ln v)) (sel_vv u v)) id else Throw.
+Proof. reflexivity. Qed.
+Lemma v_dot_is_source_call u v : v_dot u v = if (ln u =? ln v)%nat then lift (run_dot (Vector_dot_call (ln u) 1 (ln v) 1 (ln v)) (sel_vv u v)) id else Throw.
+Proof. reflexivity. Qed.
+Lemma v_scale_is_source_call u x : v_scale u x = lift (run_scal (Vector_scaled_call (ln u) 1 0 0 0) (sel_vv u []) x) id
+                                   /\ v_scale u x = lift (run_scal (Vector_iscale_call (ln u) 1 0 0 0) (sel_vv u []) x) id.
+Proof. split; reflexivity. Qed.
+Lemma v_norm_is_source_call u : v_norm2 u = lift (run_dot (Vector_norm_call (ln u) 1 0 0 0) (sel_vv u [])) id.
+Proof. reflexivity. Qed.
+Lemma v_outer_is_source_call u v : v_outer u v = if (ln u =? ln v)%nat then lift (run_ger (Vector_outer_call (ln u) 1 (ln v) 1 (ln v)) (sel_vv u v)) (dn (ln u) (ln v)) else Throw.
+Proof. unfold v_outer, run_ger. cbn [g_lda g_m g_n g_x g_y Vector_outer_call sel_vv]. rewrite Nat.eqb_refl. reflexivity. Qed.
+Lemma m_getcol_is_source_call M j : m_getcol M j = if inb j (dnc M) then lift (run_gather (Matrix_getcol_call (dnl M) (dnc M) 0 0 0 (Z.to_nat j)) (sel_mv M [])) id else Throw.
+Proof. reflexivity. Qed.
+Lemma m_getlin_is_source_call M i : m_getlin M i = if inb i (dnl M) then lift (run_gather (Matrix_getlin_call (dnl M) (dnc M) 0 0 0 (Z.to_nat i)) (sel_mv M [])) id else Throw.
+Proof. reflexivity. Qed.
+Lemma m_setcol_is_source_call M j v : m_setcol M j v =
+  if ((ln v =? dnl M)%nat && inb j (dnc M))%bool then lift (run_scatter (Matrix_setcol_call (dnl M) (dnc M) (ln v) 1 (ln v) (Z.to_nat j)) (sel_mv M v)) (dn (dnl M) (dnc M)) else Throw.
+Proof. reflexivity. Qed.
+Lemma m_setlin_is_source_call M i v : m_setlin M i v =
+  if ((ln v =? dnc M)%nat && inb i (dnl M))%bool then lift (run_scatter (Matrix_setlin_call (dnl M) (dnc M) (ln v) 1 (ln v) (Z.to_nat i)) (sel_mv M v)) (dn (dnl M) (dnc M)) else Throw.
+Proof. reflexivity. Qed.
+Lemma m_iadd_is_source_call A B : m_addsub 1 A B =
+  if ((dnl A =? dnl B) && (dnc A =? dnc B))%nat then lift (run_axpy (Matrix_iadd_call (dnl A) (dnc A) (dnl B) (dnc B) 0) (sel_mm1 A B)) (dn (dnl A) (dnc A)) else Throw.
+Proof. reflexivity. Qed.
+Lemma m_isub_is_source_call A B : m_addsub (-1) A B =
+  if ((dnl A =? dnl B) && (dnc A =? dnc B))%nat then lift (run_axpy (Matrix_isub_call (dnl A) (dnc A) (dnl B) (dnc B) 0) (sel_mm1 A B)) (dn (dnl A) (dnc A)) else Throw.
+Proof. reflexivity. Qed.
+Lemma m_dot_is_source_call A B : m_dot A B =
+  if ((dnl A =? dnl B) && (dnc A =? dnc B))%nat then lift (run_dot (Matrix_dot_call (dnl A) (dnc A) (dnl B) (dnc B) 0) (sel_mm1 A B)) id else Throw.
+Proof. reflexivity. Qed.
+Lemma s_iadd_is_source_call S T : s_addsub 1 S T =
+  if (sn S =? sn T)%nat then lift (run_axpy (Sym_iadd_call (sn S) (sn S) (sn T) (sn T) 0) (sel_ss1 S T)) (fun l => {| sn := sn S; sd := l |}) else Throw.
+Proof. reflexivity. Qed.
+Lemma s_isub_is_source_call S T : s_addsub (-1) S T =
+  if (sn S =? sn T)%nat then lift (run_axpy (Sym_isub_call (sn S) (sn S) (sn T) (sn T) 0) (sel_ss1 S T)) (fun l => {| sn := sn S; sd := l |}) else Throw.
+Proof. reflexivity. Qed.
+Lemma s_mulv_is_source_call S v : s_mulv S v = if (sn S =? ln v)%nat then lift (run_spmv (Sym_mulv_call (sn S) (sn S) (ln v) 1 (ln v)) (sel_sv S v)) id else Throw.
+Proof. reflexivity. Qed.
